@@ -3,6 +3,8 @@
    Spec : V.C07.Spec  (laid-out programs: render / layout_ok / in_range / denote).                          *)
 Require Import V.Lib.Base V.Lib.Calls V.Lib.Dec V.C09.Spec V.Gen.Consts V.Gen.Consts_C07.
 Require Import V.C07.Model V.C07.Spec V.C07.ProofsLex V.C07.ProofsGram V.C07.ProofsTop.
+Require Import V.Lib.Contract.
+Require V.C07.ProofsStream V.C07.ProofsContract.
 Local Open Scope Z_scope.
 
 (* Every text that follows the smodels layout (any whitespace / LF / CRLF between tokens, ANY non-negative numbers in
@@ -118,3 +120,61 @@ Example c07_ex_rejects : layout_ok (ex_bad 4294967295) = true /\ in_range false 
   snd (read_smodels (mkopts false false) (render (ex_bad 18446744073709551617))) = Err 1.
 Proof. repeat split; vm_compute; reflexivity. Qed.
 Print Assumptions c07_ex_accepts.
+
+(* ================= statements about EVERY byte list (no layout / well-formedness hypothesis; NUL bytes allowed) =================
+   These are what property C04 needs from the smodels reader (c04_smodels_contract). *)
+
+(* What the reader delivers - whether it accepts or reports an error - is in protocol order (initProgram first and once,
+   beginStep / endStep alternate, directives only inside a step) and every call satisfies every clause of the consumer
+   contract unconditionally (atoms 1..2^31-1, literals non-zero with such an atom, rule-body weights >= 0, bounds within int,
+   head type 0/1, external value 0..3), except that the priority of a minimize - the number of optimize statements read before
+   it in the step (SmodelsInput::readRules: minPrio++) - is only known to lie in 0 .. |t|. *)
+Theorem c07_delivered : forall (o : opts) (t : list Z),
+  protocol_ok 0 (fst (read_smodels o t)) = true /\
+  (forall c, In c (fst (read_smodels o t)) ->
+     match c with
+     | CMin p l => 0 <= p <= Z.of_nat (length t) /\ forallb (wlit_ok false) l = true
+     | _ => call_ok c = true
+     end).
+Proof. exact V.C07.ProofsContract.delivered_calls. Qed.
+Print Assumptions c07_delivered.
+
+(* ... hence the full contract for every input shorter than 2^31 bytes (the only use of the hypothesis: int_ok of that priority) *)
+Theorem c07_contract : forall (o : opts) (t : list Z),
+  Z.of_nat (length t) < 2 ^ 31 -> contract_ok (fst (read_smodels o t)) = true.
+Proof. exact V.C07.ProofsContract.reader_contract. Qed.
+Print Assumptions c07_contract.
+
+(* an accepted input leaves no step open *)
+Theorem c07_steps_closed : forall (o : opts) (t : list Z) (u : unit),
+  snd (read_smodels o t) = Ok u -> steps_closed (fst (read_smodels o t)) = true.
+Proof. exact V.C07.ProofsContract.reader_steps_closed. Qed.
+Print Assumptions c07_steps_closed.
+
+(* no loop of the model (counted lists, rule block, symbol table and names, compute statements, externals, steps) runs out of
+   fuel on ANY input: every iteration consumes at least one byte - the termination argument of the real loops *)
+Theorem c07_no_fuel_exhaustion : forall (o : opts) (t : list Z), snd (read_smodels o t) <> Fuel.
+Proof. exact V.C07.ProofsContract.no_fuel_exhaustion. Qed.
+Print Assumptions c07_no_fuel_exhaustion.
+
+(* a reported error line lies inside the text: between 1 and 1 + the number of line breaks (LF, CR, CRLF) of t *)
+Theorem c07_line : forall (o : opts) (t : list Z) (ln : Z),
+  snd (read_smodels o t) = Err ln -> 1 <= ln <= 1 + V.C07.ProofsStream.nl t.
+Proof. exact V.C07.ProofsContract.line_bound. Qed.
+Print Assumptions c07_line.
+
+(* non-vacuity: CRLF counts once; garbage with NUL / bytes > 127 after a delivered rule: the partial sequence is delivered, the
+   error is on line 3 of 5; the hypothesis of c07_contract holds for a text whose calls contain minimize statements with
+   priorities 0 and 1 (incremental, two steps, NUL-terminated) *)
+Example c07_ex_nl : V.C07.ProofsStream.nl [49; 10; 13; 10; 13; 50] = 3.
+Proof. reflexivity. Qed.
+Example c07_ex_garbage :
+  read_smodels (mkopts false false) [49;32;49;32;48;32;48;13;10;48;13;49;32;0;255;10;10] = ([CInit false; CBegin; CRule 0 [1] []], Err 3) /\
+  V.C07.ProofsStream.nl [49;32;49;32;48;32;48;13;10;48;13;49;32;0;255;10;10] = 4.
+Proof. split; vm_compute; reflexivity. Qed.
+Definition ex_inc : list Z :=
+  [57;48;32;48;10;48;10;48;10;66;43;10;48;10;66;45;10;48;10;49;10;13;54;32;48;32;48;32;48;10;54;32;48;32;48;32;48;10;48;10;48;10;
+   66;43;10;48;10;66;45;10;48;10;69;32;55;32;48;32;49;10;0;49].
+Example c07_ex_contract_hyp : Z.of_nat (length ex_inc) < 2 ^ 31 /\
+  read_smodels (mkopts true false) ex_inc = ([CInit true; CBegin; CEnd; CBegin; CMin 0 []; CMin 1 []; CExternal 7 0; CEnd], Ok tt).
+Proof. split; vm_compute; reflexivity. Qed.
